@@ -1190,6 +1190,8 @@ package analysis
 //@   ensures forall k in dom(s.references.parameters) :: (old(k in dom(s.references.parameters)) && s.references.parameters[k] == old(s.references.parameters[k])) || (k == pkey(prefix, i) && param.Ref.String() != "" && s.references.parameters[k] == param.Ref)
 //@   ensures forall k string :: old(k in dom(s.references.parameters)) ==> k in dom(s.references.parameters)
 //@   ensures forall k string :: old(k in dom(s.references.allRefs)) ==> k in dom(s.references.allRefs)
+//@   ensures (forall k string :: old(k in dom(s.references.items)) ==> k in dom(s.references.items)) && (forall k string :: old(k in dom(s.references.schemas)) ==> k in dom(s.references.schemas))
+//@   ensures param.In == "body" && param.Schema != nil ==> forall k string :: forall r spec.Ref :: schRef(k, r, *param.Schema, path.Join(prefix, "parameters", strconv.Itoa(i)), "schema") ==> k in dom(s.references.schemas) && k in dom(s.references.allRefs)
 //@   ensures forall k string :: forall p spec.Ref :: itRef(k, p, param.Items, path.Join(prefix, "parameters", strconv.Itoa(i)), "items") ==> k in dom(s.references.items) && k in dom(s.references.allRefs)
 // responses and path items register their own $ref (refs aspect)
 //@ func (s *Spec) analyzeDefaultResponse(prefix, res)
@@ -1199,9 +1201,11 @@ package analysis
 //@   ensures res.Ref.String() != "" ==> ("#" + path.Join(prefix, "responses", "default")) in dom(s.references.responses) && s.references.responses["#" + path.Join(prefix, "responses", "default")] == res.Ref && ("#" + path.Join(prefix, "responses", "default")) in dom(s.references.allRefs)
 //@   ensures forall k in dom(s.references.responses) :: (old(k in dom(s.references.responses)) && s.references.responses[k] == old(s.references.responses[k])) || (k == "#" + path.Join(prefix, "responses", "default") && res.Ref.String() != "" && s.references.responses[k] == res.Ref)
 //@   ensures forall k string :: old(k in dom(s.references.allRefs)) ==> k in dom(s.references.allRefs)
+//@   ensures (forall k string :: old(k in dom(s.references.responses)) ==> k in dom(s.references.responses)) && (forall k string :: old(k in dom(s.references.items)) ==> k in dom(s.references.items)) && (forall k string :: old(k in dom(s.references.schemas)) ==> k in dom(s.references.schemas))
 //@   ensures res.Schema != nil ==> forall k string :: forall r spec.Ref :: schRef(k, r, *res.Schema, path.Join(prefix, "responses", "default"), "schema") ==> k in dom(s.references.schemas) && k in dom(s.references.allRefs)
 //@   loop 1: invariant forall k in dom(s.references.responses) :: (old(k in dom(s.references.responses)) && s.references.responses[k] == old(s.references.responses[k])) || (k == "#" + path.Join(prefix, "responses", "default") && res.Ref.String() != "" && s.references.responses[k] == res.Ref)
 //@   loop 1: invariant forall k string :: old(k in dom(s.references.allRefs)) ==> k in dom(s.references.allRefs)
+//@   loop 1: invariant (forall k string :: old(k in dom(s.references.responses)) ==> k in dom(s.references.responses)) && (forall k string :: old(k in dom(s.references.items)) ==> k in dom(s.references.items)) && (forall k string :: old(k in dom(s.references.schemas)) ==> k in dom(s.references.schemas))
 //@   loop 1: invariant res.Ref.String() != "" ==> ("#" + path.Join(prefix, "responses", "default")) in dom(s.references.responses) && s.references.responses["#" + path.Join(prefix, "responses", "default")] == res.Ref && ("#" + path.Join(prefix, "responses", "default")) in dom(s.references.allRefs)
 
 //@ func (s *Spec) analyzeResponse(prefix, k, res)
@@ -1211,10 +1215,94 @@ package analysis
 //@   ensures res.Ref.String() != "" ==> ("#" + path.Join(prefix, "responses", strconv.Itoa(k))) in dom(s.references.responses) && s.references.responses["#" + path.Join(prefix, "responses", strconv.Itoa(k))] == res.Ref && ("#" + path.Join(prefix, "responses", strconv.Itoa(k))) in dom(s.references.allRefs)
 //@   ensures forall kk in dom(s.references.responses) :: (old(kk in dom(s.references.responses)) && s.references.responses[kk] == old(s.references.responses[kk])) || (kk == "#" + path.Join(prefix, "responses", strconv.Itoa(k)) && res.Ref.String() != "" && s.references.responses[kk] == res.Ref)
 //@   ensures forall kk string :: old(kk in dom(s.references.allRefs)) ==> kk in dom(s.references.allRefs)
+//@   ensures (forall kk string :: old(kk in dom(s.references.responses)) ==> kk in dom(s.references.responses)) && (forall kk string :: old(kk in dom(s.references.items)) ==> kk in dom(s.references.items)) && (forall kk string :: old(kk in dom(s.references.schemas)) ==> kk in dom(s.references.schemas))
 //@   ensures res.Schema != nil ==> forall kk string :: forall r spec.Ref :: schRef(kk, r, *res.Schema, path.Join(prefix, "responses", strconv.Itoa(k)), "schema") ==> kk in dom(s.references.schemas) && kk in dom(s.references.allRefs)
 //@   loop 1: invariant forall kk in dom(s.references.responses) :: (old(kk in dom(s.references.responses)) && s.references.responses[kk] == old(s.references.responses[kk])) || (kk == "#" + path.Join(prefix, "responses", strconv.Itoa(k)) && res.Ref.String() != "" && s.references.responses[kk] == res.Ref)
 //@   loop 1: invariant forall kk string :: old(kk in dom(s.references.allRefs)) ==> kk in dom(s.references.allRefs)
+//@   loop 1: invariant (forall kk string :: old(kk in dom(s.references.responses)) ==> kk in dom(s.references.responses)) && (forall kk string :: old(kk in dom(s.references.items)) ==> kk in dom(s.references.items)) && (forall kk string :: old(kk in dom(s.references.schemas)) ==> kk in dom(s.references.schemas))
 //@   loop 1: invariant res.Ref.String() != "" ==> ("#" + path.Join(prefix, "responses", strconv.Itoa(k))) in dom(s.references.responses) && s.references.responses["#" + path.Join(prefix, "responses", strconv.Itoa(k))] == res.Ref && ("#" + path.Join(prefix, "responses", strconv.Itoa(k))) in dom(s.references.allRefs)
+
+// BEGIN refs-doc (generated by /verif/tools/gen_refs_doc.py)
+//@ func (s *Spec) analyzeOperation(method, path, op)
+//@   aspect refs
+//@   requires s != nil && idxMaps(s) && opsWF(s)
+//@   modifies map s.operations, heap map[string]*spec.Operation, map s.consumes, map s.produces, map s.authSchemes, map s.allSchemas, map s.allOfs, map s.references.schemas, map s.references.responses, map s.references.parameters, map s.references.items, map s.references.headerItems, map s.references.parameterItems, map s.references.allRefs, map s.references.pathItems, map s.patterns.parameters, map s.patterns.headers, map s.patterns.items, map s.patterns.schemas, map s.patterns.allPatterns, map s.enums.parameters, map s.enums.headers, map s.enums.items, map s.enums.schemas, map s.enums.allEnums
+//@   ensures opsWF(s)
+//@   ensures (forall k string :: old(k in dom(s.references.schemas)) ==> k in dom(s.references.schemas)) && (forall k string :: old(k in dom(s.references.parameters)) ==> k in dom(s.references.parameters)) && (forall k string :: old(k in dom(s.references.responses)) ==> k in dom(s.references.responses)) && (forall k string :: old(k in dom(s.references.items)) ==> k in dom(s.references.items)) && (forall k string :: old(k in dom(s.references.pathItems)) ==> k in dom(s.references.pathItems)) && (forall k string :: old(k in dom(s.references.allRefs)) ==> k in dom(s.references.allRefs))
+//@   ensures op != nil ==> forall i in 0..len(op.Parameters) :: (op.Parameters[i].Ref.String() != "" ==> pkey(slashpath.Join("/paths", jsonpointer.Escape(path), strings.ToLower(method)), i) in dom(s.references.parameters) && pkey(slashpath.Join("/paths", jsonpointer.Escape(path), strings.ToLower(method)), i) in dom(s.references.allRefs)) && (forall k string :: forall r spec.Ref :: itRef(k, r, op.Parameters[i].Items, slashpath.Join(slashpath.Join("/paths", jsonpointer.Escape(path), strings.ToLower(method)), "parameters", strconv.Itoa(i)), "items") ==> k in dom(s.references.items) && k in dom(s.references.allRefs)) && (op.Parameters[i].In == "body" && op.Parameters[i].Schema != nil ==> (forall k string :: forall r spec.Ref :: schRef(k, r, *op.Parameters[i].Schema, slashpath.Join(slashpath.Join("/paths", jsonpointer.Escape(path), strings.ToLower(method)), "parameters", strconv.Itoa(i)), "schema") ==> k in dom(s.references.schemas) && k in dom(s.references.allRefs)))
+//@   ensures op != nil && op.Responses != nil && op.Responses.Default != nil ==> (op.Responses.Default.Ref.String() != "" ==> ("#" + slashpath.Join(slashpath.Join("/paths", jsonpointer.Escape(path), strings.ToLower(method)), "responses", "default")) in dom(s.references.responses) && ("#" + slashpath.Join(slashpath.Join("/paths", jsonpointer.Escape(path), strings.ToLower(method)), "responses", "default")) in dom(s.references.allRefs)) && (op.Responses.Default.Schema != nil ==> (forall k string :: forall r spec.Ref :: schRef(k, r, *op.Responses.Default.Schema, slashpath.Join(slashpath.Join("/paths", jsonpointer.Escape(path), strings.ToLower(method)), "responses", "default"), "schema") ==> k in dom(s.references.schemas) && k in dom(s.references.allRefs)))
+//@   ensures op != nil && op.Responses != nil ==> forall c in dom(op.Responses.StatusCodeResponses) :: (op.Responses.StatusCodeResponses[c].Ref.String() != "" ==> ("#" + slashpath.Join(slashpath.Join("/paths", jsonpointer.Escape(path), strings.ToLower(method)), "responses", strconv.Itoa(c))) in dom(s.references.responses) && ("#" + slashpath.Join(slashpath.Join("/paths", jsonpointer.Escape(path), strings.ToLower(method)), "responses", strconv.Itoa(c))) in dom(s.references.allRefs)) && (op.Responses.StatusCodeResponses[c].Schema != nil ==> (forall k string :: forall r spec.Ref :: schRef(k, r, *op.Responses.StatusCodeResponses[c].Schema, slashpath.Join(slashpath.Join("/paths", jsonpointer.Escape(path), strings.ToLower(method)), "responses", strconv.Itoa(c)), "schema") ==> k in dom(s.references.schemas) && k in dom(s.references.allRefs)))
+//@   loop 1: modifies map s.consumes
+//@   loop 2: modifies map s.produces
+//@   loop 3: modifies map s.authSchemes
+//@   loop 4: modifies map s.authSchemes
+//@   loop 5: modifies heap spec.Parameter, map s.allSchemas, map s.allOfs, map s.references.schemas, map s.references.responses, map s.references.parameters, map s.references.items, map s.references.headerItems, map s.references.parameterItems, map s.references.allRefs, map s.patterns.parameters, map s.patterns.headers, map s.patterns.items, map s.patterns.schemas, map s.patterns.allPatterns, map s.enums.parameters, map s.enums.headers, map s.enums.items, map s.enums.schemas, map s.enums.allEnums
+//@   loop 6: modifies heap spec.Response, map s.allSchemas, map s.allOfs, map s.references.schemas, map s.references.responses, map s.references.parameters, map s.references.items, map s.references.headerItems, map s.references.parameterItems, map s.references.allRefs, map s.patterns.parameters, map s.patterns.headers, map s.patterns.items, map s.patterns.schemas, map s.patterns.allPatterns, map s.enums.parameters, map s.enums.headers, map s.enums.items, map s.enums.schemas, map s.enums.allEnums
+//@   loop 5: invariant opsWF(s) && (forall k string :: old(k in dom(s.references.schemas)) ==> k in dom(s.references.schemas)) && (forall k string :: old(k in dom(s.references.parameters)) ==> k in dom(s.references.parameters)) && (forall k string :: old(k in dom(s.references.responses)) ==> k in dom(s.references.responses)) && (forall k string :: old(k in dom(s.references.items)) ==> k in dom(s.references.items)) && (forall k string :: old(k in dom(s.references.pathItems)) ==> k in dom(s.references.pathItems)) && (forall k string :: old(k in dom(s.references.allRefs)) ==> k in dom(s.references.allRefs))
+//@   loop 5: invariant forall j in 0..idx :: (op.Parameters[j].Ref.String() != "" ==> pkey(prefix, j) in dom(s.references.parameters) && pkey(prefix, j) in dom(s.references.allRefs)) && (forall k string :: forall r spec.Ref :: itRef(k, r, op.Parameters[j].Items, slashpath.Join(prefix, "parameters", strconv.Itoa(j)), "items") ==> k in dom(s.references.items) && k in dom(s.references.allRefs)) && (op.Parameters[j].In == "body" && op.Parameters[j].Schema != nil ==> (forall k string :: forall r spec.Ref :: schRef(k, r, *op.Parameters[j].Schema, slashpath.Join(prefix, "parameters", strconv.Itoa(j)), "schema") ==> k in dom(s.references.schemas) && k in dom(s.references.allRefs)))
+//@   loop 6: invariant opsWF(s) && (forall k string :: old(k in dom(s.references.schemas)) ==> k in dom(s.references.schemas)) && (forall k string :: old(k in dom(s.references.parameters)) ==> k in dom(s.references.parameters)) && (forall k string :: old(k in dom(s.references.responses)) ==> k in dom(s.references.responses)) && (forall k string :: old(k in dom(s.references.items)) ==> k in dom(s.references.items)) && (forall k string :: old(k in dom(s.references.pathItems)) ==> k in dom(s.references.pathItems)) && (forall k string :: old(k in dom(s.references.allRefs)) ==> k in dom(s.references.allRefs))
+//@   loop 6: invariant forall j in 0..len(op.Parameters) :: (op.Parameters[j].Ref.String() != "" ==> pkey(prefix, j) in dom(s.references.parameters) && pkey(prefix, j) in dom(s.references.allRefs)) && (forall k string :: forall r spec.Ref :: itRef(k, r, op.Parameters[j].Items, slashpath.Join(prefix, "parameters", strconv.Itoa(j)), "items") ==> k in dom(s.references.items) && k in dom(s.references.allRefs)) && (op.Parameters[j].In == "body" && op.Parameters[j].Schema != nil ==> (forall k string :: forall r spec.Ref :: schRef(k, r, *op.Parameters[j].Schema, slashpath.Join(prefix, "parameters", strconv.Itoa(j)), "schema") ==> k in dom(s.references.schemas) && k in dom(s.references.allRefs)))
+//@   loop 6: invariant op.Responses.Default != nil ==> (op.Responses.Default.Ref.String() != "" ==> ("#" + slashpath.Join(prefix, "responses", "default")) in dom(s.references.responses) && ("#" + slashpath.Join(prefix, "responses", "default")) in dom(s.references.allRefs)) && (op.Responses.Default.Schema != nil ==> (forall k string :: forall r spec.Ref :: schRef(k, r, *op.Responses.Default.Schema, slashpath.Join(prefix, "responses", "default"), "schema") ==> k in dom(s.references.schemas) && k in dom(s.references.allRefs)))
+//@   loop 6: invariant forall c in seen :: (op.Responses.StatusCodeResponses[c].Ref.String() != "" ==> ("#" + slashpath.Join(prefix, "responses", strconv.Itoa(c))) in dom(s.references.responses) && ("#" + slashpath.Join(prefix, "responses", strconv.Itoa(c))) in dom(s.references.allRefs)) && (op.Responses.StatusCodeResponses[c].Schema != nil ==> (forall k string :: forall r spec.Ref :: schRef(k, r, *op.Responses.StatusCodeResponses[c].Schema, slashpath.Join(prefix, "responses", strconv.Itoa(c)), "schema") ==> k in dom(s.references.schemas) && k in dom(s.references.allRefs)))
+
+//@ func (s *Spec) analyzeOperations(path, pi)
+//@   aspect refs
+//@   requires s != nil && pi != nil && idxMaps(s) && opsWF(s)
+//@   modifies heap spec.Parameter, map s.operations, heap map[string]*spec.Operation, map s.consumes, map s.produces, map s.authSchemes, map s.allSchemas, map s.allOfs, map s.references.schemas, map s.references.responses, map s.references.parameters, map s.references.items, map s.references.headerItems, map s.references.parameterItems, map s.references.allRefs, map s.references.pathItems, map s.patterns.parameters, map s.patterns.headers, map s.patterns.items, map s.patterns.schemas, map s.patterns.allPatterns, map s.enums.parameters, map s.enums.headers, map s.enums.items, map s.enums.schemas, map s.enums.allEnums
+//@   ensures opsWF(s)
+//@   ensures (forall k string :: old(k in dom(s.references.schemas)) ==> k in dom(s.references.schemas)) && (forall k string :: old(k in dom(s.references.parameters)) ==> k in dom(s.references.parameters)) && (forall k string :: old(k in dom(s.references.responses)) ==> k in dom(s.references.responses)) && (forall k string :: old(k in dom(s.references.items)) ==> k in dom(s.references.items)) && (forall k string :: old(k in dom(s.references.pathItems)) ==> k in dom(s.references.pathItems)) && (forall k string :: old(k in dom(s.references.allRefs)) ==> k in dom(s.references.allRefs))
+//@   ensures pi.Ref.String() != "" ==> ("#" + slashpath.Join("/paths", jsonpointer.Escape(path))) in dom(s.references.pathItems) && ("#" + slashpath.Join("/paths", jsonpointer.Escape(path))) in dom(s.references.allRefs)
+//@   ensures forall i in 0..len(pi.Parameters) :: (pi.Parameters[i].Ref.String() != "" ==> ("#" + slashpath.Join("/paths", jsonpointer.Escape(path), "parameters", strconv.Itoa(i))) in dom(s.references.parameters) && ("#" + slashpath.Join("/paths", jsonpointer.Escape(path), "parameters", strconv.Itoa(i))) in dom(s.references.allRefs)) && (forall k string :: forall r spec.Ref :: itRef(k, r, pi.Parameters[i].Items, slashpath.Join("/paths", jsonpointer.Escape(path), "parameters", strconv.Itoa(i)), "items") ==> k in dom(s.references.items) && k in dom(s.references.allRefs)) && (pi.Parameters[i].Schema != nil ==> (forall k string :: forall r spec.Ref :: schRef(k, r, *pi.Parameters[i].Schema, slashpath.Join("/paths", jsonpointer.Escape(path), "parameters", strconv.Itoa(i)), "schema") ==> k in dom(s.references.schemas) && k in dom(s.references.allRefs)))
+//@   loop 1: modifies heap spec.Parameter, map s.allSchemas, map s.allOfs, map s.references.schemas, map s.references.responses, map s.references.parameters, map s.references.items, map s.references.headerItems, map s.references.parameterItems, map s.references.allRefs, map s.patterns.parameters, map s.patterns.headers, map s.patterns.items, map s.patterns.schemas, map s.patterns.allPatterns, map s.enums.parameters, map s.enums.headers, map s.enums.items, map s.enums.schemas, map s.enums.allEnums
+//@   loop 1: invariant opsWF(s) && (forall k string :: old(k in dom(s.references.schemas)) ==> k in dom(s.references.schemas)) && (forall k string :: old(k in dom(s.references.parameters)) ==> k in dom(s.references.parameters)) && (forall k string :: old(k in dom(s.references.responses)) ==> k in dom(s.references.responses)) && (forall k string :: old(k in dom(s.references.items)) ==> k in dom(s.references.items)) && (forall k string :: old(k in dom(s.references.pathItems)) ==> k in dom(s.references.pathItems)) && (forall k string :: old(k in dom(s.references.allRefs)) ==> k in dom(s.references.allRefs))
+//@   loop 1: invariant pi.Ref.String() != "" ==> ("#" + slashpath.Join("/paths", jsonpointer.Escape(path))) in dom(s.references.pathItems) && ("#" + slashpath.Join("/paths", jsonpointer.Escape(path))) in dom(s.references.allRefs)
+//@   loop 1: invariant forall j in 0..idx :: (op.Parameters[j].Ref.String() != "" ==> ("#" + slashpath.Join("/paths", jsonpointer.Escape(path), "parameters", strconv.Itoa(j))) in dom(s.references.parameters) && ("#" + slashpath.Join("/paths", jsonpointer.Escape(path), "parameters", strconv.Itoa(j))) in dom(s.references.allRefs)) && (forall k string :: forall r spec.Ref :: itRef(k, r, op.Parameters[j].Items, slashpath.Join("/paths", jsonpointer.Escape(path), "parameters", strconv.Itoa(j)), "items") ==> k in dom(s.references.items) && k in dom(s.references.allRefs)) && (op.Parameters[j].Schema != nil ==> (forall k string :: forall r spec.Ref :: schRef(k, r, *op.Parameters[j].Schema, slashpath.Join("/paths", jsonpointer.Escape(path), "parameters", strconv.Itoa(j)), "schema") ==> k in dom(s.references.schemas) && k in dom(s.references.allRefs)))
+
+//@ func (s *Spec) initialize()
+//@   aspect refs
+//@   requires s != nil && s.spec != nil && idxMaps(s) && opsWF(s)
+//@   modifies heap spec.Parameter, heap spec.PathItem, map s.operations, heap map[string]*spec.Operation, map s.consumes, map s.produces, map s.authSchemes, map s.allSchemas, map s.allOfs, map s.references.schemas, map s.references.responses, map s.references.parameters, map s.references.items, map s.references.headerItems, map s.references.parameterItems, map s.references.allRefs, map s.references.pathItems, map s.patterns.parameters, map s.patterns.headers, map s.patterns.items, map s.patterns.schemas, map s.patterns.allPatterns, map s.enums.parameters, map s.enums.headers, map s.enums.items, map s.enums.schemas, map s.enums.allEnums
+//@   ensures forall p in dom(docPaths(s)) :: docPaths(s)[p].Ref.String() != "" ==> ("#" + slashpath.Join("/paths", jsonpointer.Escape(p))) in dom(s.references.pathItems) && ("#" + slashpath.Join("/paths", jsonpointer.Escape(p))) in dom(s.references.allRefs)
+//@   ensures forall p in dom(docPaths(s)) :: forall i in 0..len(docPaths(s)[p].Parameters) :: (docPaths(s)[p].Parameters[i].Ref.String() != "" ==> ("#" + slashpath.Join("/paths", jsonpointer.Escape(p), "parameters", strconv.Itoa(i))) in dom(s.references.parameters) && ("#" + slashpath.Join("/paths", jsonpointer.Escape(p), "parameters", strconv.Itoa(i))) in dom(s.references.allRefs)) && (forall k string :: forall r spec.Ref :: itRef(k, r, docPaths(s)[p].Parameters[i].Items, slashpath.Join("/paths", jsonpointer.Escape(p), "parameters", strconv.Itoa(i)), "items") ==> k in dom(s.references.items) && k in dom(s.references.allRefs)) && (docPaths(s)[p].Parameters[i].Schema != nil ==> (forall k string :: forall r spec.Ref :: schRef(k, r, *docPaths(s)[p].Parameters[i].Schema, slashpath.Join("/paths", jsonpointer.Escape(p), "parameters", strconv.Itoa(i)), "schema") ==> k in dom(s.references.schemas) && k in dom(s.references.allRefs)))
+//@   ensures forall n in dom(s.spec.Parameters) :: (forall k string :: forall r spec.Ref :: itRef(k, r, s.spec.Parameters[n].Items, slashpath.Join("/parameters", jsonpointer.Escape(n)), "items") ==> k in dom(s.references.items) && k in dom(s.references.allRefs)) && (s.spec.Parameters[n].In == "body" && s.spec.Parameters[n].Schema != nil ==> (forall k string :: forall r spec.Ref :: schRef(k, r, *s.spec.Parameters[n].Schema, slashpath.Join("/parameters", jsonpointer.Escape(n)), "schema") ==> k in dom(s.references.schemas) && k in dom(s.references.allRefs)))
+//@   ensures forall n in dom(s.spec.Responses) :: (forall h in dom(s.spec.Responses[n].Headers) :: (forall k string :: forall r spec.Ref :: itRef(k, r, s.spec.Responses[n].Headers[h].Items, slashpath.Join(slashpath.Join("/responses", jsonpointer.Escape(n)), "headers", h), "items") ==> k in dom(s.references.items) && k in dom(s.references.allRefs))) && (s.spec.Responses[n].Schema != nil ==> (forall k string :: forall r spec.Ref :: schRef(k, r, *s.spec.Responses[n].Schema, slashpath.Join("/responses", jsonpointer.Escape(n)), "schema") ==> k in dom(s.references.schemas) && k in dom(s.references.allRefs)))
+//@   ensures forall n in dom(s.spec.Definitions) :: (forall k string :: forall r spec.Ref :: schRef(k, r, s.spec.Definitions[n], "/definitions", n) ==> k in dom(s.references.schemas) && k in dom(s.references.allRefs))
+//@   loop 1: modifies map s.consumes
+//@   loop 2: modifies map s.produces
+//@   loop 3: modifies map s.authSchemes
+//@   loop 4: modifies map s.authSchemes
+//@   loop 5: modifies heap spec.Parameter, heap spec.PathItem, map s.operations, heap map[string]*spec.Operation, map s.consumes, map s.produces, map s.authSchemes, map s.allSchemas, map s.allOfs, map s.references.schemas, map s.references.responses, map s.references.parameters, map s.references.items, map s.references.headerItems, map s.references.parameterItems, map s.references.allRefs, map s.references.pathItems, map s.patterns.parameters, map s.patterns.headers, map s.patterns.items, map s.patterns.schemas, map s.patterns.allPatterns, map s.enums.parameters, map s.enums.headers, map s.enums.items, map s.enums.schemas, map s.enums.allEnums
+//@   loop 6: modifies map s.allSchemas, map s.allOfs, map s.references.schemas, map s.references.responses, map s.references.parameters, map s.references.items, map s.references.headerItems, map s.references.parameterItems, map s.references.allRefs, map s.references.pathItems, map s.patterns.parameters, map s.patterns.headers, map s.patterns.items, map s.patterns.schemas, map s.patterns.allPatterns, map s.enums.parameters, map s.enums.headers, map s.enums.items, map s.enums.schemas, map s.enums.allEnums
+//@   loop 7: modifies map s.allSchemas, map s.allOfs, map s.references.schemas, map s.references.responses, map s.references.parameters, map s.references.items, map s.references.headerItems, map s.references.parameterItems, map s.references.allRefs, map s.references.pathItems, map s.patterns.parameters, map s.patterns.headers, map s.patterns.items, map s.patterns.schemas, map s.patterns.allPatterns, map s.enums.parameters, map s.enums.headers, map s.enums.items, map s.enums.schemas, map s.enums.allEnums
+//@   loop 8: modifies map s.allSchemas, map s.allOfs, map s.references.schemas, map s.references.responses, map s.references.parameters, map s.references.items, map s.references.headerItems, map s.references.parameterItems, map s.references.allRefs, map s.references.pathItems, map s.patterns.parameters, map s.patterns.headers, map s.patterns.items, map s.patterns.schemas, map s.patterns.allPatterns, map s.enums.parameters, map s.enums.headers, map s.enums.items, map s.enums.schemas, map s.enums.allEnums
+//@   loop 9: modifies map s.allSchemas, map s.allOfs, map s.references.schemas, map s.references.responses, map s.references.parameters, map s.references.items, map s.references.headerItems, map s.references.parameterItems, map s.references.allRefs, map s.references.pathItems, map s.patterns.parameters, map s.patterns.headers, map s.patterns.items, map s.patterns.schemas, map s.patterns.allPatterns, map s.enums.parameters, map s.enums.headers, map s.enums.items, map s.enums.schemas, map s.enums.allEnums
+//@   loop 5: invariant opsWF(s) && (forall k string :: old(k in dom(s.references.schemas)) ==> k in dom(s.references.schemas)) && (forall k string :: old(k in dom(s.references.parameters)) ==> k in dom(s.references.parameters)) && (forall k string :: old(k in dom(s.references.responses)) ==> k in dom(s.references.responses)) && (forall k string :: old(k in dom(s.references.items)) ==> k in dom(s.references.items)) && (forall k string :: old(k in dom(s.references.pathItems)) ==> k in dom(s.references.pathItems)) && (forall k string :: old(k in dom(s.references.allRefs)) ==> k in dom(s.references.allRefs))
+//@   loop 5: invariant forall p in seen :: p in dom(docPaths(s))
+//@   loop 5: invariant forall p in seen :: docPaths(s)[p].Ref.String() != "" ==> ("#" + slashpath.Join("/paths", jsonpointer.Escape(p))) in dom(s.references.pathItems) && ("#" + slashpath.Join("/paths", jsonpointer.Escape(p))) in dom(s.references.allRefs)
+//@   loop 5: invariant forall p in seen :: forall i in 0..len(docPaths(s)[p].Parameters) :: (docPaths(s)[p].Parameters[i].Ref.String() != "" ==> ("#" + slashpath.Join("/paths", jsonpointer.Escape(p), "parameters", strconv.Itoa(i))) in dom(s.references.parameters) && ("#" + slashpath.Join("/paths", jsonpointer.Escape(p), "parameters", strconv.Itoa(i))) in dom(s.references.allRefs)) && (forall k string :: forall r spec.Ref :: itRef(k, r, docPaths(s)[p].Parameters[i].Items, slashpath.Join("/paths", jsonpointer.Escape(p), "parameters", strconv.Itoa(i)), "items") ==> k in dom(s.references.items) && k in dom(s.references.allRefs)) && (docPaths(s)[p].Parameters[i].Schema != nil ==> (forall k string :: forall r spec.Ref :: schRef(k, r, *docPaths(s)[p].Parameters[i].Schema, slashpath.Join("/paths", jsonpointer.Escape(p), "parameters", strconv.Itoa(i)), "schema") ==> k in dom(s.references.schemas) && k in dom(s.references.allRefs)))
+//@   loop 6: invariant (forall k string :: old(k in dom(s.references.schemas)) ==> k in dom(s.references.schemas)) && (forall k string :: old(k in dom(s.references.parameters)) ==> k in dom(s.references.parameters)) && (forall k string :: old(k in dom(s.references.responses)) ==> k in dom(s.references.responses)) && (forall k string :: old(k in dom(s.references.items)) ==> k in dom(s.references.items)) && (forall k string :: old(k in dom(s.references.pathItems)) ==> k in dom(s.references.pathItems)) && (forall k string :: old(k in dom(s.references.allRefs)) ==> k in dom(s.references.allRefs))
+//@   loop 6: invariant forall p in dom(docPaths(s)) :: docPaths(s)[p].Ref.String() != "" ==> ("#" + slashpath.Join("/paths", jsonpointer.Escape(p))) in dom(s.references.pathItems) && ("#" + slashpath.Join("/paths", jsonpointer.Escape(p))) in dom(s.references.allRefs)
+//@   loop 6: invariant forall p in dom(docPaths(s)) :: forall i in 0..len(docPaths(s)[p].Parameters) :: (docPaths(s)[p].Parameters[i].Ref.String() != "" ==> ("#" + slashpath.Join("/paths", jsonpointer.Escape(p), "parameters", strconv.Itoa(i))) in dom(s.references.parameters) && ("#" + slashpath.Join("/paths", jsonpointer.Escape(p), "parameters", strconv.Itoa(i))) in dom(s.references.allRefs)) && (forall k string :: forall r spec.Ref :: itRef(k, r, docPaths(s)[p].Parameters[i].Items, slashpath.Join("/paths", jsonpointer.Escape(p), "parameters", strconv.Itoa(i)), "items") ==> k in dom(s.references.items) && k in dom(s.references.allRefs)) && (docPaths(s)[p].Parameters[i].Schema != nil ==> (forall k string :: forall r spec.Ref :: schRef(k, r, *docPaths(s)[p].Parameters[i].Schema, slashpath.Join("/paths", jsonpointer.Escape(p), "parameters", strconv.Itoa(i)), "schema") ==> k in dom(s.references.schemas) && k in dom(s.references.allRefs)))
+//@   loop 6: invariant forall n in seen :: (forall k string :: forall r spec.Ref :: itRef(k, r, s.spec.Parameters[n].Items, slashpath.Join("/parameters", jsonpointer.Escape(n)), "items") ==> k in dom(s.references.items) && k in dom(s.references.allRefs)) && (s.spec.Parameters[n].In == "body" && s.spec.Parameters[n].Schema != nil ==> (forall k string :: forall r spec.Ref :: schRef(k, r, *s.spec.Parameters[n].Schema, slashpath.Join("/parameters", jsonpointer.Escape(n)), "schema") ==> k in dom(s.references.schemas) && k in dom(s.references.allRefs)))
+//@   loop 7: invariant (forall k string :: old(k in dom(s.references.schemas)) ==> k in dom(s.references.schemas)) && (forall k string :: old(k in dom(s.references.parameters)) ==> k in dom(s.references.parameters)) && (forall k string :: old(k in dom(s.references.responses)) ==> k in dom(s.references.responses)) && (forall k string :: old(k in dom(s.references.items)) ==> k in dom(s.references.items)) && (forall k string :: old(k in dom(s.references.pathItems)) ==> k in dom(s.references.pathItems)) && (forall k string :: old(k in dom(s.references.allRefs)) ==> k in dom(s.references.allRefs))
+//@   loop 7: invariant forall p in dom(docPaths(s)) :: docPaths(s)[p].Ref.String() != "" ==> ("#" + slashpath.Join("/paths", jsonpointer.Escape(p))) in dom(s.references.pathItems) && ("#" + slashpath.Join("/paths", jsonpointer.Escape(p))) in dom(s.references.allRefs)
+//@   loop 7: invariant forall p in dom(docPaths(s)) :: forall i in 0..len(docPaths(s)[p].Parameters) :: (docPaths(s)[p].Parameters[i].Ref.String() != "" ==> ("#" + slashpath.Join("/paths", jsonpointer.Escape(p), "parameters", strconv.Itoa(i))) in dom(s.references.parameters) && ("#" + slashpath.Join("/paths", jsonpointer.Escape(p), "parameters", strconv.Itoa(i))) in dom(s.references.allRefs)) && (forall k string :: forall r spec.Ref :: itRef(k, r, docPaths(s)[p].Parameters[i].Items, slashpath.Join("/paths", jsonpointer.Escape(p), "parameters", strconv.Itoa(i)), "items") ==> k in dom(s.references.items) && k in dom(s.references.allRefs)) && (docPaths(s)[p].Parameters[i].Schema != nil ==> (forall k string :: forall r spec.Ref :: schRef(k, r, *docPaths(s)[p].Parameters[i].Schema, slashpath.Join("/paths", jsonpointer.Escape(p), "parameters", strconv.Itoa(i)), "schema") ==> k in dom(s.references.schemas) && k in dom(s.references.allRefs)))
+//@   loop 7: invariant forall n in dom(s.spec.Parameters) :: (forall k string :: forall r spec.Ref :: itRef(k, r, s.spec.Parameters[n].Items, slashpath.Join("/parameters", jsonpointer.Escape(n)), "items") ==> k in dom(s.references.items) && k in dom(s.references.allRefs)) && (s.spec.Parameters[n].In == "body" && s.spec.Parameters[n].Schema != nil ==> (forall k string :: forall r spec.Ref :: schRef(k, r, *s.spec.Parameters[n].Schema, slashpath.Join("/parameters", jsonpointer.Escape(n)), "schema") ==> k in dom(s.references.schemas) && k in dom(s.references.allRefs)))
+//@   loop 7: invariant forall n in seen7 :: (forall h in dom(s.spec.Responses[n].Headers) :: (forall k string :: forall r spec.Ref :: itRef(k, r, s.spec.Responses[n].Headers[h].Items, slashpath.Join(slashpath.Join("/responses", jsonpointer.Escape(n)), "headers", h), "items") ==> k in dom(s.references.items) && k in dom(s.references.allRefs))) && (s.spec.Responses[n].Schema != nil ==> (forall k string :: forall r spec.Ref :: schRef(k, r, *s.spec.Responses[n].Schema, slashpath.Join("/responses", jsonpointer.Escape(n)), "schema") ==> k in dom(s.references.schemas) && k in dom(s.references.allRefs)))
+//@   loop 8: invariant (forall k string :: old(k in dom(s.references.schemas)) ==> k in dom(s.references.schemas)) && (forall k string :: old(k in dom(s.references.parameters)) ==> k in dom(s.references.parameters)) && (forall k string :: old(k in dom(s.references.responses)) ==> k in dom(s.references.responses)) && (forall k string :: old(k in dom(s.references.items)) ==> k in dom(s.references.items)) && (forall k string :: old(k in dom(s.references.pathItems)) ==> k in dom(s.references.pathItems)) && (forall k string :: old(k in dom(s.references.allRefs)) ==> k in dom(s.references.allRefs))
+//@   loop 8: invariant forall p in dom(docPaths(s)) :: docPaths(s)[p].Ref.String() != "" ==> ("#" + slashpath.Join("/paths", jsonpointer.Escape(p))) in dom(s.references.pathItems) && ("#" + slashpath.Join("/paths", jsonpointer.Escape(p))) in dom(s.references.allRefs)
+//@   loop 8: invariant forall p in dom(docPaths(s)) :: forall i in 0..len(docPaths(s)[p].Parameters) :: (docPaths(s)[p].Parameters[i].Ref.String() != "" ==> ("#" + slashpath.Join("/paths", jsonpointer.Escape(p), "parameters", strconv.Itoa(i))) in dom(s.references.parameters) && ("#" + slashpath.Join("/paths", jsonpointer.Escape(p), "parameters", strconv.Itoa(i))) in dom(s.references.allRefs)) && (forall k string :: forall r spec.Ref :: itRef(k, r, docPaths(s)[p].Parameters[i].Items, slashpath.Join("/paths", jsonpointer.Escape(p), "parameters", strconv.Itoa(i)), "items") ==> k in dom(s.references.items) && k in dom(s.references.allRefs)) && (docPaths(s)[p].Parameters[i].Schema != nil ==> (forall k string :: forall r spec.Ref :: schRef(k, r, *docPaths(s)[p].Parameters[i].Schema, slashpath.Join("/paths", jsonpointer.Escape(p), "parameters", strconv.Itoa(i)), "schema") ==> k in dom(s.references.schemas) && k in dom(s.references.allRefs)))
+//@   loop 8: invariant forall n in dom(s.spec.Parameters) :: (forall k string :: forall r spec.Ref :: itRef(k, r, s.spec.Parameters[n].Items, slashpath.Join("/parameters", jsonpointer.Escape(n)), "items") ==> k in dom(s.references.items) && k in dom(s.references.allRefs)) && (s.spec.Parameters[n].In == "body" && s.spec.Parameters[n].Schema != nil ==> (forall k string :: forall r spec.Ref :: schRef(k, r, *s.spec.Parameters[n].Schema, slashpath.Join("/parameters", jsonpointer.Escape(n)), "schema") ==> k in dom(s.references.schemas) && k in dom(s.references.allRefs)))
+//@   loop 8: invariant forall n in seen7 :: n != key7 ==> (forall h in dom(s.spec.Responses[n].Headers) :: (forall k string :: forall r spec.Ref :: itRef(k, r, s.spec.Responses[n].Headers[h].Items, slashpath.Join(slashpath.Join("/responses", jsonpointer.Escape(n)), "headers", h), "items") ==> k in dom(s.references.items) && k in dom(s.references.allRefs))) && (s.spec.Responses[n].Schema != nil ==> (forall k string :: forall r spec.Ref :: schRef(k, r, *s.spec.Responses[n].Schema, slashpath.Join("/responses", jsonpointer.Escape(n)), "schema") ==> k in dom(s.references.schemas) && k in dom(s.references.allRefs)))
+//@   loop 8: invariant forall h in seen :: (forall k string :: forall r spec.Ref :: itRef(k, r, response.Headers[h].Items, slashpath.Join(refPref, "headers", h), "items") ==> k in dom(s.references.items) && k in dom(s.references.allRefs))
+//@   loop 9: invariant (forall k string :: old(k in dom(s.references.schemas)) ==> k in dom(s.references.schemas)) && (forall k string :: old(k in dom(s.references.parameters)) ==> k in dom(s.references.parameters)) && (forall k string :: old(k in dom(s.references.responses)) ==> k in dom(s.references.responses)) && (forall k string :: old(k in dom(s.references.items)) ==> k in dom(s.references.items)) && (forall k string :: old(k in dom(s.references.pathItems)) ==> k in dom(s.references.pathItems)) && (forall k string :: old(k in dom(s.references.allRefs)) ==> k in dom(s.references.allRefs))
+//@   loop 9: invariant forall p in dom(docPaths(s)) :: docPaths(s)[p].Ref.String() != "" ==> ("#" + slashpath.Join("/paths", jsonpointer.Escape(p))) in dom(s.references.pathItems) && ("#" + slashpath.Join("/paths", jsonpointer.Escape(p))) in dom(s.references.allRefs)
+//@   loop 9: invariant forall p in dom(docPaths(s)) :: forall i in 0..len(docPaths(s)[p].Parameters) :: (docPaths(s)[p].Parameters[i].Ref.String() != "" ==> ("#" + slashpath.Join("/paths", jsonpointer.Escape(p), "parameters", strconv.Itoa(i))) in dom(s.references.parameters) && ("#" + slashpath.Join("/paths", jsonpointer.Escape(p), "parameters", strconv.Itoa(i))) in dom(s.references.allRefs)) && (forall k string :: forall r spec.Ref :: itRef(k, r, docPaths(s)[p].Parameters[i].Items, slashpath.Join("/paths", jsonpointer.Escape(p), "parameters", strconv.Itoa(i)), "items") ==> k in dom(s.references.items) && k in dom(s.references.allRefs)) && (docPaths(s)[p].Parameters[i].Schema != nil ==> (forall k string :: forall r spec.Ref :: schRef(k, r, *docPaths(s)[p].Parameters[i].Schema, slashpath.Join("/paths", jsonpointer.Escape(p), "parameters", strconv.Itoa(i)), "schema") ==> k in dom(s.references.schemas) && k in dom(s.references.allRefs)))
+//@   loop 9: invariant forall n in dom(s.spec.Parameters) :: (forall k string :: forall r spec.Ref :: itRef(k, r, s.spec.Parameters[n].Items, slashpath.Join("/parameters", jsonpointer.Escape(n)), "items") ==> k in dom(s.references.items) && k in dom(s.references.allRefs)) && (s.spec.Parameters[n].In == "body" && s.spec.Parameters[n].Schema != nil ==> (forall k string :: forall r spec.Ref :: schRef(k, r, *s.spec.Parameters[n].Schema, slashpath.Join("/parameters", jsonpointer.Escape(n)), "schema") ==> k in dom(s.references.schemas) && k in dom(s.references.allRefs)))
+//@   loop 9: invariant forall n in dom(s.spec.Responses) :: (forall h in dom(s.spec.Responses[n].Headers) :: (forall k string :: forall r spec.Ref :: itRef(k, r, s.spec.Responses[n].Headers[h].Items, slashpath.Join(slashpath.Join("/responses", jsonpointer.Escape(n)), "headers", h), "items") ==> k in dom(s.references.items) && k in dom(s.references.allRefs))) && (s.spec.Responses[n].Schema != nil ==> (forall k string :: forall r spec.Ref :: schRef(k, r, *s.spec.Responses[n].Schema, slashpath.Join("/responses", jsonpointer.Escape(n)), "schema") ==> k in dom(s.references.schemas) && k in dom(s.references.allRefs)))
+//@   loop 9: invariant forall n in seen :: (forall k string :: forall r spec.Ref :: schRef(k, r, s.spec.Definitions[n], "/definitions", n) ==> k in dom(s.references.schemas) && k in dom(s.references.allRefs))
+
+// END refs-doc
 
 // ---------------------------------------------------------------- analyzer.go: the schema index (C12)
 // generated by /verif/tools/gen_schemas_schema.py
